@@ -27,16 +27,21 @@ def project_draw(cdf, u, n, rounded, W=None):
     lo_b = cdf.F[k - 1] if k > 0 else Fraction(0)
     hi_b = cdf.F[k]
     near, lo, hi = 0, k + 1, k + 1
-    pos_bins = [i for i in range(n) if cdf.r[i] > 0]
     if rounded:
-        if fu - lo_b <= band and lo_b > 0:
-            near = 1
-            hi = k + 1
-            lo = max(i for i in pos_bins if i < k) + 1
-        elif hi_b - fu <= band and hi_b < 1:
-            near = 1
-            lo = k + 1
-            hi = min(i for i in pos_bins if i > k) + 1
+        # the code takes the first bin whose float cumulative weight exceeds u; the float weights are within the band of the
+        # exact ones, so a positive-rate bin i is possible iff F_i > u - band and F_(i-1) <= u + band (a run of very narrow
+        # bins may put several on either side)
+        i = k
+        while i > 0 and cdf.F[i - 1] > fu - band:
+            i -= 1
+            if cdf.r[i] > 0:
+                lo = i + 1
+        i = k
+        while i < n - 1 and cdf.F[i] <= fu + band:
+            i += 1
+            if cdf.r[i] > 0:
+                hi = i + 1
+        near = 1 if (lo, hi) != (k + 1, k + 1) else 0
     uabs = -1
     if W is not None:
         unit = (fu * W).numerator // (fu * W).denominator
@@ -298,7 +303,7 @@ def run(chk, replay=None):
             dr = [project_draw(cdf, u, n, True) for u in draws]
             add_trace(base_trace(kind='poisson', wt=[1], target=tgt, n=n, zero=[1 if x == 0 else 0 for x in rates],
                                  draws=dr, result=[int(x) for x in out]),
-                      {'label': 'random', 'n': n, 'draws': draws, 'module': name, 'rates_head': rates[:8]}, False)
+                      {'label': 'random', 'n': n, 'draws': draws, 'module': name, 'rates': [float(x).hex() for x in rates]}, False)
         chk.nontrivial('rand|%d|%d' % (n, t))
 
     # ---------------------------------------------------------------- 4. L-test: Poisson number of events, conserved
@@ -463,7 +468,7 @@ def run(chk, replay=None):
                 cls = 'none' if d is None else ('near-boundary' if d['near'] or (d['u'] >= 0 and d['u'] % 4 != 2) else 'interior')
                 zero_hit = any(tr['zero'][b] and tr['result'][b] for b in range(tr['n']))
                 sig = '%s:%s:%s:%s%s' % (tr['kind'], m.get('module'), m['label'], cls, ':zero-rate-bin-hit' if zero_hit else '')
-                m = dict(m, first_unexplained_draw=d, result=tr['result'][:20], target=tr['target'])
+                m = dict(m, first_unexplained_draw=d, placed_bins=[b + 1 for b in range(tr['n']) if tr['result'][b]][:20], target=tr['target'])
             chk.violation(sig, m)
     chk.sample({'trace': {k: (v if k != 'draws' else v[:4]) for k, v in traces_round[0].items()}})
     if traces_exact:
